@@ -64,13 +64,15 @@ pub struct Profile {
     /// per-mille of size choices that are plain random (the rest are boundary-directed)
     pub random_size_permille: u64,
     pub default_hasher_permille: u64,
+    /// large populations: no size choices that evict (nearly) everything at once
+    pub gentle: bool,
 }
 
 pub fn profile(name: &str) -> Profile {
     let base = Profile {
         name: "mixed", w_insert: 24, w_try_insert: 6, w_promote: 10, w_peek: 8, w_remove: 8, w_mutate: 12, w_set_max: 4, w_retain: 3,
         w_capacity: 6, w_alloc_fail: 1, w_clear: 1, w_iterate: 4, w_debug: 1, w_clone: 3,
-        universe: (3, 16), events: (20, 220), fill: (1, 10), extreme_permille: 0, random_size_permille: 350, default_hasher_permille: 120,
+        universe: (3, 16), events: (20, 220), fill: (1, 10), extreme_permille: 0, random_size_permille: 350, default_hasher_permille: 120, gentle: false,
     };
     match name {
         // C01/C02: size classes, mutate compositions, limits at both ends
@@ -96,7 +98,7 @@ pub fn profile(name: &str) -> Profile {
         // C15
         "retain" => Profile { name: "retain", w_retain: 16, w_insert: 30, universe: (3, 24), fill: (3, 30), ..base },
         // C07 at scale: caches of thousands of entries
-        "big" => Profile { name: "big", w_capacity: 14, w_insert: 34, w_remove: 12, w_iterate: 1, w_clone: 1, w_retain: 0, w_clear: 0, w_set_max: 1, w_debug: 0, universe: (3000, 12000), fill: (1500, 9000), events: (8000, 30000), ..base },
+        "big" => Profile { name: "big", w_capacity: 14, w_insert: 34, w_remove: 12, w_iterate: 1, w_clone: 1, w_retain: 0, w_clear: 0, w_set_max: 1, w_debug: 0, universe: (3000, 12000), fill: (1500, 9000), events: (8000, 30000), gentle: true, ..base },
         // C20
         "hash" => Profile { name: "hash", w_capacity: 8, w_set_max: 6, w_retain: 4, universe: (4, 64), fill: (4, 80), ..base },
         // extreme sizes only (C01/C02)
@@ -156,6 +158,13 @@ impl Gen {
         // filling phase: let the cache grow to its target population before aiming at thresholds
         if pre.len < self.target_len && self.rng.chance(3, 4) { return small(self); }
         if self.rng.below(1000) < self.prof.random_size_permille { return small(self); }
+        if self.prof.gentle {
+            // a few evictions at most
+            if self.rng.chance(4, 5) || pre.ents.is_empty() { return small(self); }
+            let k = self.rng.range(1, pre.ents.len().min(3));
+            let s: u128 = pre.ents[..k].iter().map(|e| e.rec as u128).sum();
+            return (free + own + s).max(base as u128).min(max).min(usize::MAX as u128) as usize;
+        }
         let pm = |r: &mut Rng, x: u128| -> u128 { match r.below(3) { 0 => x, 1 => x + 1, _ => x.saturating_sub(1) } };
         let t: u128 = match self.rng.weighted(&[14, 12, 7, 3, 5, 40, 6, 13]) {
             0 => free + own,
@@ -232,6 +241,7 @@ impl Gen {
             5 => {
                 let vh = match pre.find(id) {
                     None => self.rng.usize_below(200),
+                    Some(e) if self.prof.gentle => { let _ = e; self.rng.usize_below(200) }
                     Some(e) => {
                         let fixed = e.kheap as u128 + base as u128; // key part + entry overhead
                         let max = pre.max as u128; let free = max.saturating_sub(pre.cur as u128);
@@ -256,6 +266,7 @@ impl Gen {
                 };
                 Op::Mutate { id, owned, vh }
             }
+            6 if self.prof.gentle => Op::SetMax { m: match self.rng.below(3) { 0 => pre.cur, 1 => pre.cur.saturating_sub(1), _ => self.orig_max } },
             6 => {
                 let cur_sz = pre.cur;
                 let m = match [0u64, 1, 2, 3, 4, 6, 8][self.rng.weighted(&[6, 6, 1, 3, 10, if pre.max < self.orig_max { 14 } else { 4 }, 3])] {
@@ -290,7 +301,7 @@ impl Gen {
             }
             9 => Op::TryReserveFail { n: pre.cap.saturating_sub(pre.len) + 1 + self.rng.usize_below(40), fail_at: 1 + self.rng.below(3) },
             10 => Op::Clear,
-            11 => { let kind = if self.rng.chance(1, 8) { 3 } else { self.rng.below(3) as u8 }; let calls = self.pick_calls(pre.ents.len()); Op::Iterate { kind, calls, forget: false } }
+            11 => { let kind = if self.rng.chance(1, 8) && !self.prof.gentle { 3 } else { self.rng.below(3) as u8 }; let calls = self.pick_calls(pre.ents.len()); Op::Iterate { kind, calls, forget: false } }
             12 => Op::Debug,
             _ => {
                 match self.rng.below(8) {
